@@ -319,7 +319,20 @@ func (r *resolver) Resolve(ctx context.Context, vk resolve.VersionKey) (*resolve
 			// this is the replacement of a mismatched bundled version, in which
 			// case install at this level).
 			latest := r.concreteForLatest(ctx, wouldPick)
-			for i := len(dvers) - 1; i >= 0; i-- {
+			pickedLatest := false
+			if latest.VersionKey != (resolve.VersionKey{}) {
+				// The version tagged latest wins whenever it satisfies the
+				// requirement, also when it is a prerelease that is not
+				// sorted last.
+				for _, v := range dvers {
+					if v.VersionKey == latest.VersionKey {
+						wouldPick = v
+						pickedLatest = true
+						break
+					}
+				}
+			}
+			for i := len(dvers) - 1; i >= 0 && !pickedLatest; i-- {
 				v := dvers[i]
 				if v.Equal(latest) {
 					wouldPick = v
